@@ -20,7 +20,8 @@ class Arg(object):
 
 
 class Op(object):
-    def __init__(self, name, args, fn, group='elementwise', npfn=None, tags=(), nout=1):
+    def __init__(self, name, args, fn, group='elementwise', npfn=None, tags=(), nout=1, meta=None):
+        self.meta = meta or {}
         self.name = name
         self.args = args
         self.fn = fn              # fn(algopy, *operands) -> UTPM | tuple
@@ -80,14 +81,17 @@ def make_input(ctx, arg, name, D, P):
     return A
 
 
-def wrap(ctx, algopy, arg, A):
-    """array of numbers -> operand object for the real code"""
+def wrap(ctx, algopy, arg, A, layout='C'):
+    """array of numbers -> operand object for the real code; layout='F' stores every matrix
+    (the trailing two axes) in Fortran order, the layout LAPACK wrappers may overwrite in place"""
     if arg.kind == 'scalar':
         return A
     if ctx.mode == 'sym':
         a = npx.sarr(np.array(A, dtype=object), complex if arg.cplx else float)
     else:
         a = np.array(np.asarray(A).tolist(), dtype=complex if arg.cplx else float).reshape(np.shape(A)).copy()
+        if layout == 'F' and len(arg.shape) >= 2:
+            a = np.ascontiguousarray(np.swapaxes(a, -1, -2)).swapaxes(-1, -2)
     return algopy.UTPM(a) if arg.kind == 'utpm' else a
 
 
@@ -126,7 +130,7 @@ def catalogue():
         add(name, [U(dom=dom)], _np(name), npfn=getattr(np, name))
     for name, dom in [('erf', 'any'), ('erfi', 'any'), ('dawsn', 'any'), ('logit', 'unit'), ('expit', 'any'),
                       ('gammaln', 'pos'), ('psi', 'pos')]:
-        add(name, [U(dom=dom)], _sp(name), group='special')
+        add(name, [U(dom=dom)], _sp(name), group='special', npfn=(lambda n: lambda a: getattr(__import__('scipy.special').special, n)(a))(name))
     add('polygamma1', [U(dom='pos')], _sp('polygamma', 1), group='special')
     add('hyperu(1.5,0.5)', [U(dom='pos')], _sp('hyperu', 1.5, 0.5), group='special')
     add('absolute', [U(dom='nonzero')], _np('absolute'), group='kink', npfn=np.absolute)
@@ -176,11 +180,39 @@ def catalogue():
     add('dot(mat,ndarray)', [U((2, 2)), N((2, 2))], lambda algopy, x, y: algopy.dot(x, y), group='linalg', npfn=np.dot)
     add('dot(ndarray,mat)', [N((2, 2)), U((2, 2))], lambda algopy, x, y: algopy.dot(x, y), group='linalg', npfn=np.dot)
     add('outer', [U((2,)), U((2,))], lambda algopy, x, y: algopy.outer(x, y), group='linalg', npfn=np.outer)
+    add('outer(ndarray,utpm)', [N((2,)), U((3,))], lambda algopy, x, y: algopy.outer(x, y), group='linalg', npfn=np.outer)
+    add('outer(utpm,ndarray)', [U((2,)), N((3,))], lambda algopy, x, y: algopy.outer(x, y), group='linalg', npfn=np.outer)
+    add('outer(2,)x(3,)', [U((2,)), U((3,))], lambda algopy, x, y: algopy.outer(x, y), group='linalg', npfn=np.outer)
+    add('dot(ndarray mat,vec)', [N((2, 3)), U((3,))], lambda algopy, x, y: algopy.dot(x, y), group='linalg', npfn=np.dot)
+    add('dot(vec,ndarray mat)', [U((2,)), N((2, 3))], lambda algopy, x, y: algopy.dot(x, y), group='linalg', npfn=np.dot)
+    add('dot(vec,mat)', [U((2,)), U((2, 3))], lambda algopy, x, y: algopy.dot(x, y), group='linalg', npfn=np.dot)
+    # broadcasting against an operand of higher rank
+    for opn, f in [('add', operator.add), ('sub', operator.sub), ('mul', operator.mul), ('div', operator.truediv)]:
+        dom = 'nonzero' if opn == 'div' else 'any'
+        add('utpm(2,) %s ndarray(3,2)' % opn, [U((2,)), N((3, 2), dom)], (lambda f: lambda algopy, x, y: f(x, y))(f), group='arith', npfn=f)
+        add('ndarray(3,2) %s utpm(2,)' % opn, [N((3, 2)), U((2,), dom)], (lambda f: lambda algopy, x, y: f(x, y))(f), group='arith', npfn=f)
+        add('utpm(2,) %s utpm(3,2)' % opn, [U((2,)), U((3, 2), dom)], (lambda f: lambda algopy, x, y: f(x, y))(f), group='arith', npfn=f)
     add('dot(mat,complex ndarray)', [U((2, 2)), N((2, 2), cplx=True)], lambda algopy, x, y: algopy.dot(x, y), group='linalg', npfn=np.dot)
     add('dot(complex ndarray,mat)', [N((2, 2), cplx=True), U((2, 2))], lambda algopy, x, y: algopy.dot(x, y), group='linalg', npfn=np.dot)
     add('dot(complex mat,mat)', [U((2, 2), cplx=True), U((2, 2))], lambda algopy, x, y: algopy.dot(x, y), group='linalg', npfn=np.dot)
     add('utpm * complex ndarray', [U((2,)), N((2,), cplx=True)], lambda algopy, x, y: x * y, group='arith', npfn=operator.mul)
     add('complex utpm + utpm', [U((2,), cplx=True), U((2,))], lambda algopy, x, y: x + y, group='arith', npfn=operator.add)
+    # in-place forms on a private copy (x.copy() op= y), right operand of lower rank / other kind
+    for opn, f in [('iadd', operator.iadd), ('isub', operator.isub), ('imul', operator.imul), ('idiv', operator.itruediv)]:
+        dom = 'nonzero' if opn == 'idiv' else 'any'
+        g = (lambda f: lambda algopy, x, y: f(x.copy(), y))(f)
+        add('utpm(2,2) %s utpm(2,)' % opn, [U((2, 2)), U((2,), dom)], g, group='arith', npfn=f)
+        add('utpm(2,) %s utpm()' % opn, [U((2,)), U((), dom)], g, group='arith', npfn=f)
+        add('utpm(2,) %s utpm(2,)' % opn, [U((2,)), U((2,), dom)], g, group='arith', npfn=f)
+        add('utpm(3,2) %s ndarray(2,)' % opn, [U((3, 2)), N((2,), dom)], g, group='arith', npfn=f)
+        add('utpm(2,) %s scalar' % opn, [U((2,)), Sc(dom)], g, group='arith', npfn=f)
+    # fft / ifft through the algopy.fft dispatchers (exact DFT for n in {1, 2, 4})
+    for nm, shp, kw in [('fft', (4,), {}), ('fft(n=2, crop)', (4,), {'n': 2}), ('fft(n=4, pad)', (2,), {'n': 4}),
+                        ('fft(axis=0)', (2, 3), {'axis': 0}), ('fft(n=4,axis=0)', (2, 2), {'n': 4, 'axis': 0})]:
+        add(nm, [U(shp)], (lambda kw: lambda algopy, x: algopy.fft.fft(x, **kw))(kw), group='fft',
+            npfn=(lambda kw: lambda a: np.fft.fft(a, **kw))(kw), meta=dict(kw, inverse=False))
+        add('i' + nm, [U(shp)], (lambda kw: lambda algopy, x: algopy.fft.ifft(x, **kw))(kw), group='fft',
+            npfn=(lambda kw: lambda a: np.fft.ifft(a, **kw))(kw), meta=dict(kw, inverse=True))
     add('max', [U((3,))], lambda algopy, x: algopy.UTPM.max(x), group='kink', tags=['distinct'])
     add('abs() at 0', [U((2,), dom='zero')], lambda algopy, x: abs(x), group='kink')
     add('absolute at 0', [U((2,), dom='zero')], lambda algopy, x: algopy.absolute(x), group='kink')
